@@ -198,7 +198,8 @@ func (vc *VC) mapInfo(t types.Type) mapHeaps {
 	mt := under(t).(*types.Map)
 	k, v := vc.ts.apply(mt.Key()), vc.ts.apply(mt.Elem())
 	ks, vs := vc.u.SortOf(k), vc.u.SortOf(v)
-	sfx := sanitize(ks) + "$" + sanitize(vs)
+	// heaps are split by Go key/value type (maps of different Go types never alias)
+	sfx := sanitize(typeKey(k)) + "$" + sanitize(typeKey(v))
 	return mapHeaps{K: k, V: v, ks: ks, vs: vs, dn: "Md$" + sfx, vn: "Mv$" + sfx, cn: "Mc$" + sfx,
 		dsort: "(Array Int (Array " + ks + " Bool))", vsort: "(Array Int (Array " + ks + " " + vs + "))"}
 }
